@@ -114,8 +114,29 @@ def none_only_when_empty(ck, prog, pvn, nb):
     Emits the obligation `exhaustion/<next>`; returns True / False / None (not recognised)."""
     from engines import positive_edges, compare_switches, relation_cases
     nones = [bi for bi in sorted(nb.reach) for st in nb.blocks[bi].stmts if st.k == "assign" and st.place.is_local() and st.place.local == 0 and st.rv["k"] == "agg" and st.rv.get("variant") == "None"]
+    # `let (len, rest) = data.split_first_chunk::<4>()?;`: the None of a std slicer handed on by `?`.  Such a slicer answers None when FEWER
+    # THAN N elements are left - for N > 1 that is not `nothing is left`
+    res_blocks = [bi for bi, t in nb.calls() if t.callee.method == "from_residual" and t.dest is not None and t.dest.is_local() and t.dest.local == 0 and "Option" in (t.callee.def_args or "")]
+    if res_blocks:
+        NEED = {"split_first": 1, "split_last": 1, "first": 1, "last": 1}
+        worst = None
+        for bi, t in nb.calls():
+            m_ = re.search(r"::(split_first_chunk|split_last_chunk|first_chunk|last_chunk)::<(\d+)>$", t.callee.def_args or "")
+            n_ = int(m_.group(2)) if m_ else NEED.get(t.callee.method) if (t.callee.res or "").startswith("core::slice::") else None
+            if n_ is None:
+                continue
+            # the slicer's Option is what the `?` looks at
+            if any(a[0] == "call" and a[3] == nb.id and a[4] == bi for rb_ in res_blocks for a in pvn.of_operand(nb, nb.blocks[rb_].term.args[0])) or any(
+                    a[0] == "call" and a[3] == nb.id and a[4] == bi for bb_, bt_ in nb.calls() if bt_.callee.method == "branch" for a in pvn.of_operand(nb, bt_.args[0])):
+                worst = (n_, t) if worst is None or n_ > worst[0] else worst
+        if worst is not None and worst[0] > 1:
+            ck.ob("DOM", "exhaustion/%s" % nb.short, False, "%s answers `None` (end of input) when `%s` finds fewer than %d bytes: up to %d trailing byte(s) are never looked at, and a caller that takes the exhaustion for `all input consumed` accepts them" % (nb.short, worst[1].callee.method, worst[0], worst[0] - 1), where=nb.where(worst[1].line))
+            return False
+        if worst is None and not nones:
+            ck.undecided("DOM", "exhaustion/%s" % nb.short, "%s hands a `None` on with `?`; where it comes from is not a slicer whose length demand is read here" % nb.short, where=nb.where())
+            return None
     if not nones:
-        return None
+        return True if res_blocks else None
     verdicts = []
     for nbi in nones:
         v = None
@@ -252,6 +273,29 @@ def run(ck, prog, ctx):
                                 is_pos = (sb_, tg_) in pe_
                                 if (ct.callee.method == "is_none") == is_pos and verdict is not False:
                                     edges.setdefault("offset==len", []).append((sb_, tg_))
+        # `sections.is_empty()`: an emptiness method of a crate type that walks the input (the private iterator over the sections, or the
+        # crate's own `Bytes` wrapper) which - through at most two delegating hops - answers with `is_empty()` / `len() == 0` of the slice it
+        # holds.  True means: nothing is left behind what was taken so far.
+        def rests_empty(tb_, depth=0):
+            if tb_ is None or tb_.kind != "AssocFn" or tb_.natural_loops() or tb_.nargs != 1 or tb_.locals[0]["s"] != "bool" or depth > 2:
+                return False
+            rets_ = pvn.of_return(tb_)
+            if any(a[0] == "op" and a[1] == "Not" for a in rets_):
+                return False
+            for a in rets_:
+                if a[0] == "call" and a[3] == tb_.id and a[1].rsplit("::", 1)[-1] == "is_empty":
+                    inner_ = prog.bodies.get(a[2]) or prog.bodies.get(a[1])
+                    if inner_ is None:
+                        return "[u8]" in (a[2] or "") or "slice" in (a[1] or "")
+                    return rests_empty(inner_, depth + 1)
+            return False
+        for cbi, ct in b.calls():
+            tb_ = prog.bodies.get(ct.callee.res or "")
+            if tb_ is not None and ct.callee.method == "is_empty" and (tb_.file or "").startswith("src/parser/") and rests_empty(tb_) and ct.args:
+                # ... of a value that walks THIS function's input
+                if any(a[0] == "param" and a[1] == b.id for a in pv.of_operand(b, ct.args[0])) or any(a[0] == "call" and a[3] == b.id for a in pvn.of_operand(b, ct.args[0])):
+                    for e_ in _pe8(b, pvn, cbi):
+                        edges.setdefault("offset==len", []).append(e_)
         # splitter form: the decoder asks ONE crate-private function to cut the whole input into its length-prefixed sections (`sections(&bytes[..]) ->
         # Result<Vec<&[u8]>>`) and matches their number against the version.  Consumed == length is then the splitter's business: each of its
         # `Ok(..)` results stands on the true edge of an emptiness test of what is left
